@@ -173,8 +173,10 @@ class C15(Prop):
         """a multi-fragment read with one thing going wrong (or nothing) at a chosen fragment"""
         tok = s.user("read", rng.choice(["class:1", "class:15", "hdr:1e0106"]))
         seq0 = s.take_seq()
-        n = rng.range(1, 4)
-        bad_at = rng.below(n)
+        # the 4-bit sequence number wraps: series of 16 and more fragments meet their first sequence number again
+        # (seeded change C15_b: "first fragment" computed as seq == first_seq)
+        n = rng.range(1, 4) if rng.chance(4, 5) else rng.choice([15, 16, 17, 17, 18, 32, 33, 34])
+        bad_at = rng.below(n) if rng.chance(2, 3) else n - 1
         how = rng.choice(["none", "none", "unsol", "seq", "src", "dup", "fir_again", "no_fir", "fin_no_con", "malformed",
                           "iin2", "silence", "garbage", "uns_bit", "extra_con"])
         for j in range(n):
